@@ -1,4 +1,5 @@
 import SfntV.Proofs.GNames3
+import SfntV.Proofs.GNames4
 import SfntV.Generated.GNames
 
 /-!
@@ -278,6 +279,52 @@ theorem C20_makesimple_kept {v : Name → Bool} {tb : Nat → Option Name} {name
     rw [h0] at this
     exact this
 
+/-- **The naming rule of `MakeSimple`.** Every name of the converted font is one of: an existing
+name that passed the validity/duplicate filter; for a glyph with text, `base` or `base.altN`
+(`base` = `FromUnicode` of that glyph's text) — and only if that candidate is valid, so a
+candidate that the suffix makes too long is never used; a placeholder `orn%03d` with number ≥ 1. -/
+theorem C20_makesimple_rule {v : Name → Bool} {tb : Nat → Option Name} {names r : List Name}
+    (h : cffMakeNames v tb names = some r) (i : Nat) :
+    (cffStage0 v names).nameAt i ≠ [] ∧ r.getD i [] = (cffStage0 v names).nameAt i ∧
+        v (r.getD i []) = true ∨
+    r.getD i [] = [] ∨
+    (∃ base t, tb i = some base ∧ r.getD i [] = altName base t ∧ v (altName base t) = true) ∨
+    (∃ k, 1 ≤ k ∧ r.getD i [] = ornName k) := by
+  rw [cffMakeNames_eq] at h
+  split at h
+  · cases h
+  · have hr : (ornPass (cffStage1 v tb names)).names = r := Option.some.inj h
+    subst hr
+    have s1 : Step (cffStage0 v names) (cffStage1 v tb names) :=
+      step_foldl _ _ (fun st g _ => step_textStep v tb st g) _
+    have s2 : Step (cffStage1 v tb names) (ornPass (cffStage1 v tb names)) := step_ornPass _
+    by_cases h0 : (cffStage0 v names).nameAt i = []
+    · right
+      have p1 : CffProv v tb (cffStage0 v names) (cffStage1 v tb names) :=
+        foldl_inv (CffProv v tb (cffStage0 v names)) _ _ (fun st g _ hp => prov_textStep g hp) _
+          (fun _ hi => Or.inl hi)
+      exact prov_ornFold _ (cffStage1 v tb names, 1) (Nat.le_refl _) p1 i h0
+    · left
+      have e := (s1.trans s2).1.2.1 i h0
+      refine ⟨h0, e, ?_⟩
+      show v ((ornPass (cffStage1 v tb names)).nameAt i) = true
+      rw [e]
+      exact cffKeep_valid v _ [] i h0
+
+/-- **`MakeSimple` gives valid names only**, provided the placeholders are valid names (true of
+the real `names.IsValid`: `orn` followed by digits). In particular no name exceeds the length
+limit built into the validity predicate. -/
+theorem C20_makesimple_valid {v : Name → Bool} {tb : Nat → Option Name} {names r : List Name}
+    (h : cffMakeNames v tb names = some r) (horn : ∀ k, v (ornName k) = true) :
+    ∀ i, i < r.length → v (r.getD i []) = true := by
+  intro i hi
+  have hne := (C20_makesimple h).2.1 i hi
+  rcases C20_makesimple_rule h i with ⟨_, _, hv⟩ | he | ⟨base, t, _, e, hv⟩ | ⟨k, _, e⟩
+  · exact hv
+  · exact absurd he hne
+  · rw [e]; exact hv
+  · rw [e]; exact horn k
+
 /-! ## PostScript name -/
 
 /-- printable ASCII other than space and the PostScript delimiters `[ ] ( ) { } < > / %` -/
@@ -362,6 +409,13 @@ example : SubsEquiv [.single2 [(1, 0), (2, 1)] [3, 4], .single1 [3, 1] 1]
 example : cffMakeNames (fun nm => nm ≠ []) (fun g => if g = 1 ∨ g = 2 then some ['A'] else none)
     [[], [], [], []] = some [notdef, ['A'], ['A', '.', 'a', 'l', 't', '1'], ornName 1] := by
   decide
+
+/-- a 31-character text name used twice: the second glyph cannot take `….alt1` (36 characters are
+not valid) and falls back to a placeholder -/
+example : cffMakeNames (fun nm => nm ≠ [] && decide (nm.length ≤ 31))
+    (fun g => if g = 1 ∨ g = 2 then some (List.replicate 31 'A') else none) [[], [], []] =
+    some [notdef, List.replicate 31 'A', ornName 1] := by
+  decide +kernel
 
 example : psFilter Gen.psNameKeep [70, 111, 111, 32, 91, 66, 93, 45, 233, 47, 126] = [70, 111, 111, 66, 45, 126] := by
   decide
